@@ -613,6 +613,18 @@ class Exec:
         env = s.bind(fdef, args, kwargs, owner, cls_arg)
         for k, v in list(env.items()):
             if isinstance(v, tuple) and v and v[0] == 'default': env[k] = s.ev(st, v[1])
+        # an argument list whose static element type differs from the parameter's (e.g. the literal []) is re-declared in the parameter's typed list maps
+        tvs = dict(s.p.tv, Self=cls_arg or owner)
+        for a_ in fdef.args.args:
+            v = env.get(a_.arg)
+            if a_.annotation is None or not isinstance(v, SV) or v.ty.kind not in ('list', 'none'): continue
+            try: pty = parse_ann(a_.annotation, tvs)
+            except Exception: continue
+            if v.ty == NONE:
+                if pty is not None and pty.kind == 'ref': env[a_.arg] = SV(v.t, pty)
+                continue
+            if pty is not None and pty.kind == 'list' and pty != v.ty:
+                s.set_list(st, v.t, s.llen(st.heap, v), s.lelem(st.heap, v), pty); env[a_.arg] = s.list_sv(st, v.t, pty)
         curc = s.spec.contracts.get(s.cur)
         if curc is not None and q in curc.before_call:
             stg = st.fork(); stg.env = dict(st.env)
@@ -739,7 +751,11 @@ class Exec:
             if s.proves(r): s.oblige(st, f'call-pre[{q}:{ast.unparse(r)[:140]}]', s.spec_bool(st2, r), 'call-pre')
         s.touch_fields(st, c)
         if c.raises and getattr(s, 'cur_ctx', None) is not None:
-            xs = st.fork(); xs.exc = q; s.cur_ctx.raises.append((xs, ('callee', q, [ast.unparse(a) for a in c.raises[0]])))
+            xs = st.fork(); xs.exc = q
+            when = getattr(c, 'raises_when', None)
+            if when is not None:
+                cond = s.spec_bool(st2, when); xs.pc.append(cond); st.pc.append(Not(cond))
+            s.cur_ctx.raises.append((xs, ('callee', q, [ast.unparse(a) for a in c.raises[0]])))
         snapshot = st.heap.copy()
         s.havoc(st, s.resolve_mods(st2, c.modifies), q.replace('.', '_'))
         res = SV(fresh('res', sort_of(rty) if rty and rty.kind != 'tuple' else I), rty or NONE)
@@ -1074,7 +1090,10 @@ class Spec:
                             for k in call.keywords: c.local_types[k.arg] = parse_ann(k.value, {})
                         elif kind == 'after_stmt': c.after_stmt.setdefault(ast.unparse(ast.parse(call.args[0].value).body[0]), []).append(call.args[1:])
                         elif kind == 'ghost_assert': c.asserts.setdefault(call.args[0].value, []).extend(call.args[1:])
-                        elif kind == 'raises': c.raises.append(call.args)
+                        elif kind == 'raises':
+                            c.raises.append(call.args)
+                            for k in call.keywords:
+                                if k.arg == 'when': c.raises_when = k.value
                     s.contracts[d.args[0].value] = c
             elif isinstance(n, ast.Assign) and n.targets[0].id == 'UFUNS':
                 srt = {'int': I, 'bool': B, 'IARR': IA}; tys = {'int': INT, 'bool': BOOL, 'IARR': IARR}
@@ -1157,6 +1176,9 @@ def generate(ex, owner, name, kind=None):
                 if ex.uses(e) and not ex.proves(e): o2.pc.append(ex.spec_bool(o2, e))
         for e in c.ensures:
             if ex.proves(e): ex.oblige(o2, f'post[{ast.unparse(e)[:90]}]#path{npath}', ex.spec_bool(o2, e), 'post')
+        if getattr(c, 'raises_when', None) is not None:
+            pre_ = o2.fork(); pre_.heap = st.old.copy(); pre_.env = dict(st.old_env)
+            ex.oblige(o2, f'returns-only-when-not[{ast.unparse(c.raises_when)[:80]}]#path{npath}', Not(ex.spec_bool(pre_, c.raises_when)), 'post')
         if c.modifies is not None: ex.frame_obligations(o2, st.old, c, f'path{npath}')
         ex.oblige(o2, f'SMOKE-path{npath}', BoolVal(False), 'smoke')
         npath += 1
@@ -1170,6 +1192,9 @@ def generate(ex, owner, name, kind=None):
         if not c.raises:
             ex.oblige(o, f'no-raise[{where}]#{nraise}', BoolVal(False), 'raise'); nraise += 1; continue
         o2 = o.fork(); o2.old = st.old; o2.old_env = st.old_env
+        if getattr(c, 'raises_when', None) is not None:
+            pre_ = o2.fork(); pre_.heap = st.old.copy(); pre_.env = dict(st.old_env)
+            ex.oblige(o2, f'raises-only-when[{ast.unparse(c.raises_when)[:80]}] at {where}#{nraise}', ex.spec_bool(pre_, c.raises_when), 'raises')
         for rargs in c.raises:
             for pat in [a.value for a in rargs[1:] if isinstance(a, ast.Constant)]:
                 obj = Int('o!u')
